@@ -71,6 +71,8 @@ func init() {
 }
 
 func runC08(p *chk.Prog, r *chk.Report) {
+	// the node sets follow the nodes' labels (CONFIG-NODE-EVENTS, shared with C10)
+	configNodeEventsRule(p, r)
 	c08AggrDiff(p, r)
 	c08Dedup(p, r)
 	cidrContainmentRule(p, r)
@@ -381,6 +383,13 @@ func c08Attach(p *chk.Prog, r *chk.Report) {
 				name := rangeVal(f, rs)
 				ok = ok && definedBy(g, "M[N]", chk.H("M", poolMap), chk.H("N", name))(pl) && !loopHasBreak(g, rs)
 				x.Check(c.fn+":attach(named):named-and-selected-pools", rs.Pos(), ok, "", "the pools an advertisement is attached to are not exactly the named pools plus those selected by its pool selectors")
+				// every named / selected pool that exists gets the advertisement: a name is passed over only when no pool
+				// carries it (L2: or when an equivalent advertisement is attached already)
+				missing := chk.GOr(chk.GBool(false, definedByIdx(g, f, "M[N]", 1, chk.H("M", poolMap), chk.H("N", name))), g.GExprNil(true, same))
+				if !c.bgp {
+					missing = chk.GOr(missing, g.GPat(true, "containsAdvertisement(P."+c.field+", A)", chk.H("A", adv), chk.H("P", same)))
+				}
+				x.Check(c.fn+":attach(named):every-existing-pool", rs.Pos(), !loopSkipsWithout(g, rs, func(n ast.Node) bool { return n == a.Top }, missing), "", "a pool the advertisement names or selects can be passed over although it exists (a de-duplication or other shortcut in front of the attach): the advertisement - with its own nodes, peers and communities - is silently not in force for that pool")
 			}
 		}
 		x.Check(c.fn+":both-branches", f.Pos(), nAll == 1 && nNamed == 1, "", "the all-pools branch is not taken exactly when the advertisement names no pool and has no pool selector")
